@@ -658,12 +658,35 @@ struct Runner {
         return w.takeObs();
     }
 
+    static void sendRequest(World &c, bool retry)
+    {
+        QXmppIq iq(QXmppIq::Get);
+        iq.setTo(DOMAIN);
+        QXmppElement el; el.setTagName("query"); el.setAttribute("xmlns", "urn:example:pending");
+        iq.setExtensions({ el });
+        c.iqStarted++;
+        const QString rid = QStringLiteral("user-%1").arg(c.iqStarted);
+        iq.setId(rid);
+        c.outstandingIds.push_back(rid);
+        World *wp = &c;
+        c.client->strm()->sendIq(std::move(iq)).then(c.client.get(), [wp, rid, retry](QXmppOutgoingClient::IqResult &&r) {
+            World &c = *wp;
+            c.iqFinished++;
+            c.outstandingIds.removeAll(rid);
+            if (std::holds_alternative<QXmppError>(r)) {
+                c.iqFinishedErr++;
+                c.events.push_back("iqdone:error");
+                if (retry) sendRequest(c, false);
+            } else c.events.push_back("iqdone:result");
+        });
+    }
+
     void perform(const std::string &opStr)
     {
         const QStringList t = QString::fromStdString(opStr).split(' ', Qt::SkipEmptyParts);
         const QString op = t.value(0);
         auto &c = w;
-        if (auto k = c.conn(); k && !k->closed && op != "connect" && op != "drop" && op != "sendiq") {
+        if (auto k = c.conn(); k && !k->closed && op != "connect" && op != "drop" && op != "sendiq" && op != "sendiq-retry") {
             if (k->delivered == 0) k->firstIsHeader = (op == "hdr") || (op == "seg" && t.value(1) == "hdr");
             k->delivered++;
             if (op == "hdr" && t.value(1) == "0") k->sawVersionlessHeader = true;
@@ -919,21 +942,9 @@ struct Runner {
         } else if (op == "drop") {
             auto k = c.conn();
             if (k && !k->closed) { k->sock->flush(); k->sock->disconnectFromHost(); }
-        } else if (op == "sendiq") {
-            QXmppIq iq(QXmppIq::Get);
-            iq.setTo(DOMAIN);
-            QXmppElement el; el.setTagName("query"); el.setAttribute("xmlns", "urn:example:pending");
-            iq.setExtensions({ el });
-            c.iqStarted++;
-            const QString rid = QStringLiteral("user-%1").arg(c.iqStarted);
-            iq.setId(rid);
-            c.outstandingIds.push_back(rid);
-            c.client->strm()->sendIq(std::move(iq)).then(c.client.get(), [&c, rid](QXmppOutgoingClient::IqResult &&r) {
-                c.iqFinished++;
-                c.outstandingIds.removeAll(rid);
-                if (std::holds_alternative<QXmppError>(r)) { c.iqFinishedErr++; c.events.push_back("iqdone:error"); }
-                else c.events.push_back("iqdone:result");
-            });
+        } else if (op == "sendiq" || op == "sendiq-retry") {
+            // sendiq-retry: a re-entrant application - the FAILURE continuation of the request sends one more request (retry once, depth 1)
+            sendRequest(c, op == "sendiq-retry");
         } else {
             fprintf(stderr, "harness: unknown op '%s'\n", opStr.c_str());
             exit(3);
